@@ -6,6 +6,7 @@ From AM Require Import Rust.Ast Gen.Dirs Ref.Tree Proofs.Tree Tie.Dirs Gen.Archi
 From AM Require Import Gen.Embed Tie.Embed.
 From AM Require Tie.Watcher.
 From AM Require Import Tie.ArchivePath.
+From AM Require Gen.Fs Tie.Fs.
 Import ListNotations.
 
 Theorem C11_dir_ids_are_exactly_the_matching_files : forall t exts d l,
@@ -61,3 +62,10 @@ Theorem C11_code_archive_paths_parsed_as_modelled :
   forallb (fun p => Tie.Watcher.outcome_eqb (gen_parse zip_register_file p) (ref_parse p) &&
                     Tie.Watcher.outcome_eqb (gen_parse tar_register_file p) (ref_parse p)) member_paths = true.
 Proof. exact archive_paths_bounded_tie. Qed.
+
+(* the FileSystem source lists a directory as the model reads it: an entry is a file when the path
+   IS a file and a directory when it IS a directory (`Path::is_file` / `is_dir`, which follow
+   symbolic links), with the id built from the stem and the extension from the name *)
+Theorem C11_code_filesystem_listing :
+  fn_body AM.Gen.Fs.FileSystem_read_dir = AM.Tie.Fs.expected_FileSystem_read_dir.
+Proof. exact (proj2 (proj2 (proj2 AM.Tie.Fs.filesystem_source_as_modelled))). Qed.
